@@ -131,6 +131,8 @@ OutcomeOK(outcome) ==
     \/ outcome = doomed /\ doomed # "none"
     \/ outcome = "ok" /\ doomed = "none"
     \/ outcome = "MaximumSearch" /\ doomed = "none" /\ lim.search # NoLimit
+    \* the hook reads the clock just before the interpreter does: the deadline may pass in between
+    \/ outcome = "Timeout" /\ doomed = "none" /\ lim.time # NoLimit
 
 CountersMatch(total, c) ==
     /\ total = acct
@@ -235,26 +237,32 @@ UCall(t) ==
     /\ grant' = Settle(grant)
     /\ UNCHANGED <<phase, lim, perm, acct, live, calls, frames, doomed, idleBase>>
 
+\* Both a fresh call ("inc" -> "time" -> "frame") and a trampoline iteration
+\* ("tinc" -> "ttime" -> "tail"; interop/limits.md: the call limit counts every call of a user
+\* function and the timeout is checked at the beginning of each) are counted and timed.
 Inc(c, limit) ==
     /\ Active
-    /\ acts # <<>> /\ TopAct.st = "inc"
+    /\ acts # <<>> /\ TopAct.st \in {"inc", "tinc"}
     /\ lim.calls # NoLimit /\ limit = lim.calls
     /\ c = calls + 1                         \* every call moves the counter by exactly one
     /\ calls' = c
     /\ IF c >= lim.calls
-         THEN Doom("MaximumUDCall") /\ acts' = Pop(acts)        \* the call never starts
-         ELSE UNCHANGED doomed /\ acts' = SetTop([TopAct EXCEPT !.st = "time"])
+         THEN /\ Doom("MaximumUDCall")
+              /\ acts' = IF TopAct.st = "inc" THEN Pop(acts)                \* the call never starts
+                         ELSE SetTop([TopAct EXCEPT !.st = "dead"])          \* the iteration never starts
+         ELSE UNCHANGED doomed /\ acts' = SetTop([TopAct EXCEPT !.st = IF TopAct.st = "inc" THEN "time" ELSE "ttime"])
     /\ grant' = Settle(grant)
     /\ UNCHANGED <<phase, lim, perm, acct, live, frames, idleBase>>
 
 TimeChk(hasDeadline, passed) ==
     /\ Active
-    /\ acts # <<>> /\ TopAct.st = "time"
+    /\ acts # <<>> /\ TopAct.st \in {"time", "ttime"}
     /\ hasDeadline = (lim.time # NoLimit)
     /\ (passed => hasDeadline)
     /\ IF passed
-         THEN Doom("Timeout") /\ acts' = Pop(acts)              \* the call never starts
-         ELSE UNCHANGED doomed /\ acts' = SetTop([TopAct EXCEPT !.st = "frame"])
+         THEN /\ Doom("Timeout")
+              /\ acts' = IF TopAct.st = "time" THEN Pop(acts) ELSE SetTop([TopAct EXCEPT !.st = "dead"])
+         ELSE UNCHANGED doomed /\ acts' = SetTop([TopAct EXCEPT !.st = IF TopAct.st = "time" THEN "frame" ELSE "tail"])
     /\ grant' = Settle(grant)
     /\ UNCHANGED <<phase, lim, perm, acct, live, calls, frames, idleBase>>
 
@@ -295,7 +303,8 @@ TailIter(t, rec, limit) ==
     /\ rec = TopAct.rec + 1
     /\ IF lim.recursion # NoLimit /\ rec > lim.recursion
          THEN Doom("MaximumRecursion") /\ acts' = SetTop([TopAct EXCEPT !.rec = rec, !.st = "dead"])
-         ELSE UNCHANGED doomed /\ acts' = SetTop([TopAct EXCEPT !.rec = rec, !.st = "tail"])
+         ELSE UNCHANGED doomed /\ acts' = SetTop([TopAct EXCEPT !.rec = rec,
+                                                        !.st = IF lim.calls # NoLimit THEN "tinc" ELSE "ttime"])
     /\ grant' = Settle(grant)
     /\ UNCHANGED <<phase, lim, perm, acct, live, calls, frames, idleBase>>
 
